@@ -332,7 +332,12 @@ impl Drawable<'_> {
     }
 
     pub(crate) fn clear(mut self) -> io::Result<()> {
-        let state = self.state();
+        let mut state = self.state();
+        // An explicit clear gives the rows of the region up (the alignment is set again by the
+        // next draw). Padding them with blank lines to keep the bottom edge in place would leave
+        // the cursor below them, and what is printed next - e.g. by the closure passed to
+        // `suspend` - would be taken for rows of the region and erased by the next draw.
+        state.alignment = MultiProgressAlignment::Top;
         drop(state);
         self.draw()
     }
